@@ -180,6 +180,12 @@ def check_file_set(ctx, db, params, pfile, kind, what, case, tag):
             # (loudly: a calibration run stops), it does not describe another problem
             rec.hit('recession-simulation-refused-above-the-highest-conductivity-knot')
             return True
+        if err and curve == 'recession' and err.get('type') == 'AssertionError' and (err.get('site') or [None])[0] == 'simulate_recession' \
+                and str(err.get('message', '')).lstrip().startswith('-'):
+            # outside the domain: the evapotranspiration averaged over the recession intervals is negative
+            # (night-time condensation outweighs the day in those intervals); the simulator says so and stops
+            rec.hit('recession-simulation-refused-negative-mean-evapotranspiration (outside the domain)')
+            return True
         if err:
             rec.violation('simulate-fails', {'exception': err, 'curve': curve}, wcase, 'pest')
             return False
